@@ -16,7 +16,9 @@ import sys
 
 sys.path.insert(0, os.path.dirname(os.path.abspath(__file__)))
 
-REPO = os.environ.get('VERIF_REPO', '/repo')
+if not os.environ.get('VERIF_REPO'):
+    os.environ.pop('VERIF_REPO', None)      # an empty value means unset, also for the harness modules and children
+REPO = os.environ.get('VERIF_REPO') or '/repo'
 OUT = os.environ.get('VERIF_GEN_OUT') or os.path.join(os.path.dirname(os.path.abspath(__file__)), '..', 'coq', 'gen', 'Gen.v')
 
 
